@@ -655,7 +655,13 @@ class Inliner:
                 v = _trace_value(body, a, 0, self.upvar_value)
                 clos.append((a, v))
             fns = [(a, v) for a, v in clos if v and v[0] == 'closure' and v[1] in self.bodies]
-            if not fns or any(closure_fp(self.bodies[v[1]]) in known_fps for a, v in fns):
+            # a new helper function handed over by name (`.is_none_or(is_multi_wildcard)`) is treated like a new closure
+            for a, v in clos:
+                if v and v[0] == 'fn':
+                    nm_ = v[1].get('res') or v[1].get('fn')
+                    if nm_ in self.bodies and self.unknown(nm_) and not self.bodies[nm_].get('coroutine'):
+                        fns.append((a, ('fnitem', nm_, v[1])))
+            if not fns or any(v[0] == 'closure' and closure_fp(self.bodies[v[1]]) in known_fps for a, v in fns):
                 continue
             s_loc = _op_local(args[0])
             if s_loc is None:
@@ -676,6 +682,8 @@ class Inliner:
                 """blocks: call X(fop, argops..) -> r ; then_stmts_fn(r) ; goto T. returns entry block index"""
                 r = newlocal('?')
                 after = block(then_stmts_fn(r), {'k': 'goto', 'target': T})
+                if fv[0] == 'fnitem':
+                    return block([], {'k': 'call', 'func': {'c': copy.deepcopy(fv[2])}, 'args': list(argops), 'dest': {'l': r}, 'target': after})
                 fc = {'ty': 'closure call', 'fn': fv[1], 'local': True, 'args': [], 'res': fv[1], 'res_local': True, 'res_kind': 'closure'}
                 return block([], {'k': 'call', 'func': {'c': fc}, 'args': [fop] + argops, 'dest': {'l': r}, 'target': after, 'expanded': True})
             OPT, RES = 'std::option::Option', 'std::result::Result'
